@@ -31,6 +31,27 @@ class _ContextFinder(DefaultVisitor):
     def _visit_context(self, stmt: ContextStmt, ctx: bool):
         return super()._visit_context(stmt, False)
 
+    def _movable(self, e: Expr) -> bool:
+        """Does *e* mean the same at the top of the function?  It is moved
+        ahead of every assignment, so it may not read a variable the function
+        assigns, and out of the exact arithmetic of a `with` header into the
+        function's own context, so it may not compute: constants, names from
+        the environment and constructor calls over those are all that move."""
+        match e:
+            case Var():
+                return e.name in self.func.free_vars
+            case Call():
+                return (
+                    all(self._movable(arg) for arg in e.args)
+                    and all(self._movable(v) for _, v in e.kwargs)
+                )
+            case Attribute():
+                return self._movable(e.value)
+            case ForeignVal() | BoolVal() | RealVal():
+                return True
+            case _:
+                return False
+
     def _visit_expr(self, e: Expr, ctx: bool) -> Expr:
         # check if we know an expression evaluates
         # statically to a context; if so, we can lift it
@@ -40,6 +61,7 @@ class _ContextFinder(DefaultVisitor):
                 isinstance(v, Context)
                 and not isinstance(e, Var)
                 and not isinstance(e, ForeignVal)
+                and self._movable(e)
             ):
                 self.ctx_exprs.append(e)
 
